@@ -137,6 +137,10 @@ def teardown(ctx):
 def cli_simple(text):
     from permuta import cli
 
+    if len(text) % 2:  # through the argument parser and the sub-command table
+        from ..cliutil import run_main
+
+        return run_main(["simple", text])[0]
     buf = io.StringIO()
     with contextlib.redirect_stdout(buf):
         cli.has_finitely_many_simples(argparse.Namespace(basis=text))
